@@ -589,8 +589,15 @@ def _run_isolated(case):
         try:
             os.close(r)
             signal.alarm(0)
+            # interval timers are not inherited across fork: give the child the case's CPU-time budget itself
+            # (the parent only waits, so its own CPU timer cannot see a hang in here)
+            from ..runner import CaseTimeout, _alarm
+            signal.signal(signal.SIGPROF, _alarm)
+            signal.setitimer(signal.ITIMER_PROF, float(C16.case_timeout), 2.0)
             try:
                 out = _run(case)
+            except CaseTimeout:
+                out = {"__timeout__": True}
             except BaseException as e:  # noqa: BLE001
                 out = {"__crash__": f"{type(e).__name__}: {e}", "__trace__": traceback.format_exc()[-1500:]}
             with os.fdopen(w, "wb") as f:
